@@ -238,6 +238,19 @@ def main() -> int:
         counts[st] = counts.get(st, 0) + 1
         name = f"{r['name']}:{r.get('filter', '?')}"
         fam = r.get("family", "")
+        if "reuse" in r:
+            if r["reuse"] is None:
+                run.discharged(name + ":reuse", "instance-reuse(call-history sweep)", nontrivial=False)
+            else:
+                wr = r["reuse"]
+                lst = classes.setdefault("visitor-instance-reuse", [])
+                lst.append({"witness": wr, "what": "reused visitor differs"})
+                what = (f"[visitor-instance-reuse] a visitor instance that had translated {wr['calls_before']} other filters "
+                        f"renders {wr['filter']!r} as {wr['reused_visitor'][1]!r}, a fresh one as {wr['fresh_visitor'][1]!r}")
+                if len(lst) <= REPLAYS_PER_CLASS:
+                    run.violation(name + ":reuse", wr, what, "instance-reuse(call-history sweep)")
+                else:
+                    run.add(name + ":reuse", VIOLATION, "instance-reuse(call-history sweep)", {"what": what})
         if st == "discharged":
             run.discharged(name, fam, r["solver_s"], detail={"sql": r.get("sql"), "modulo": r.get("modulo")})
         elif st == "known":
@@ -282,7 +295,7 @@ def main() -> int:
     minimal = {}
     for cls, lst in classes.items():
         best = min(lst, key=lambda r: (len(r["witness"]["filter"]), r["witness"]["filter"]))
-        minimal[cls] = {"count": len(lst), "filter": best["witness"]["filter"], "sql": best["witness"].get("sql"),
+        minimal[cls] = {"count": len(lst), "filter": best["witness"]["filter"], "sql": best["witness"].get("sql", best["witness"].get("reused_visitor")),
                         "row": best["witness"].get("row"), "what": best["what"],
                         "more_filters": sorted({r["witness"]["filter"] for r in lst}, key=lambda x: (len(x), x))[1:25]}
     run.extra.update({
@@ -313,6 +326,12 @@ def run_repo():
 def replay(data: dict) -> int:
     """Re-run one replay file (as written by Run.violation) on the live code and the real sqlite3.
     Returns 1 if the counterexample still reproduces, 0 if not."""
-    still, what = tv.replay_known_witness(data["witness"])
+    w = data["witness"]
+    if "history" in w:
+        res = tv.replay_history(w["history"], w["dialect"], w.get("alias"))
+        print(("REPRODUCED: " if res["reproduced"] else "not reproduced: ") + f"after {len(w['history']) - 1} earlier calls the "
+              f"instance renders {w['filter']!r} as {res['last']}, a fresh visitor as {res['fresh']}")
+        return 1 if res["reproduced"] else 0
+    still, what = tv.replay_known_witness(w)
     print(("REPRODUCED: " if still else "not reproduced: ") + what)
     return 1 if still else 0
